@@ -67,19 +67,20 @@ Proof. vm_compute. split; reflexivity. Qed.
    tables of contents .Tc with any options but -mini (full or summary, numbered or not, titled; -lof/-lot/-lop find no
    entries in this sub-language), XHTML fragment mode (0), standalone mode (1: the complete page, whose header leaves
    html and body open and whose footer closes them) and multi-file mode (2: the index page with its table of contents and
-   one file per part and chapter, each with header, navigation bars and footer; every file written is balanced).  The output is read by the tag machine of Proofs/Tok.v: it ends in character data with no
+   one file per part and chapter, each with header, navigation bars and footer; 3: EPUB, with the generated package,
+   navigation and NCX files; every file written is balanced).  The output is read by the tag machine of Proofs/Tok.v: it ends in character data with no
    element left open, and no closing tag ever mismatched (the machine would be stuck in Bad); the block stack and the
    inline scopes are closed at end of file and before each header; unclosed, mismatched or stray .Ed/.Em lines are
    reported by the model and the output still balances.  The two passes agree: the k-th header of pass 2 finds the
    entry pass 1 recorded for it (Proofs/FragH.v). *)
 Require Tok Inv FragB FragH.
 
-Theorem C02_headers_balanced_partial : forall fuel md wd main bs, md = 0%nat \/ md = 1%nat \/ md = 2%nat -> Forall FragH.in_fragH bs ->
-  let s := snd (compile (S fuel) (R "xhtml") md wd main bs) in
+Theorem C02_headers_balanced_partial : forall fuel f md wd main bs, f = R "xhtml" \/ f = R "epub" -> (md <= 3)%nat -> Forall FragH.in_fragH bs ->
+  let s := snd (compile (S fuel) f md wd main bs) in
   panicked s = None /\
   Tok.run (flat (wout s)) (Tok.Txt, []) = (Tok.Txt, []) /\ In (curfile s, flat (wout s)) (files s) /\
   Forall (fun f => Tok.run (snd f) (Tok.Txt, []) = (Tok.Txt, [])) (files s).
-Proof. intros fuel md wd main bs Hm H. destruct (FragH.C02_headers_balanced_modes fuel md wd main bs Hm H) as (A & B & C & D & _). exact (conj A (conj B (conj C D))). Qed.
+Proof. intros fuel f md wd main bs Hf Hm H. destruct (FragH.C02_headers_balanced_modes fuel f md wd main bs Hf Hm H) as (A & B & C & D & _). exact (conj A (conj B (conj C D))). Qed.
 Print Assumptions C02_headers_balanced_partial.
 (* the per-handler steps of the open-element invariant that the lifting uses, for any state (also inside lists etc.) *)
 Theorem C02_text_keeps_invariant : forall base s, @Inv.Inv base s -> Inv.markup_ok (mtags s) -> process s = true -> asis s = false ->
